@@ -49,6 +49,8 @@ var (
 	vSysTrace  []vSysRecord
 	vNNPTid    uint32 // ghost: thread that has the no_new_privs bit (valid if vNNPSet)
 	vNNPSet    bool
+	vNNPAll    bool   // ghost: a thread-synchronising attach copied the bit to every thread
+	vNNPEarlier bool  // ghost: the bit was set during an earlier call of the history (threads created since inherit it)
 	vPrivSym   bool // ghost: process has CAP_SYS_ADMIN
 	vLockEpochN int
 	vLockDepthN int
@@ -107,7 +109,12 @@ func vstubSyscall6(trap, a1, a2, a3, a4, a5, a6 uintptr) (uintptr, uintptr, sysc
 	rec := vSysRecord{trap: trap, a: [6]uintptr{a1, a2, a3, a4, a5, a6}, nargs: 6}
 	rec.tid = vThread(i)
 	rec.epoch = vCurEpoch()
-	rec.nnpAtCall = vAnd(vNNPSet, rec.tid == vNNPTid)
+	rec.nnpAtCall = vOr(vNNPAll, vAnd(vNNPSet, rec.tid == vNNPTid))
+	if vNNPEarlier {
+		// a thread other than the one that set the bit in an earlier call may be a thread
+		// created from it since (inherits the bit) or not: arbitrary
+		rec.nnpAtCall = vOr(rec.nnpAtCall, vAnd(vNNPSet, vBool("sys"+strconv.Itoa(i)+".inherited_nnp")))
+	}
 	r1, errno := vKernelAnswer(i)
 	switch trap {
 	case kNRSeccompAMD64:
@@ -124,6 +131,8 @@ func vstubSyscall6(trap, a1, a2, a3, a4, a5, a6 uintptr) (uintptr, uintptr, sysc
 			vAssume(vImplies(vAnd(vNot(vPrivSym), vNot(rec.nnpAtCall)), errno == kEACCES))
 			// a positive return is the refused thread-sync and needs the TSYNC flag
 			vAssume(vImplies(vAnd(errno == 0, r1 != 0), a2&kFlagTSync != 0))
+			// seccomp(2): a successful thread-synchronising attach also gives every thread the caller's bit
+			vNNPAll = vOr(vNNPAll, vAnd(vAnd(errno == 0, r1 == 0), vAnd(a2&kFlagTSync != 0, rec.nnpAtCall)))
 		}
 	case kNRPrctlAMD64:
 		if a1 == kPRSetNNP {
@@ -170,8 +179,35 @@ func H_Load() {
 	flag := vU32("flag")
 	vPrivSym = vBool("privileged")
 	vSysTrace = nil
-	vNNPSet = false
+	vNNPSet, vNNPAll, vNNPEarlier = false, false, false
 	vLockDepthN, vLockEpochN = 0, 0
+
+	// history: the call under test is not the first use of the package in this process. An
+	// earlier call of the API (any of its three entry points, with its own arguments and kernel
+	// answers, possibly on another thread) must not change what this call owes: the obligations
+	// below are per call. Kernel ghost state (who has the bit) carries over, the trace does not.
+	if prior := vParamInt("prior"); prior > 0 {
+		var pcode int
+		switch prior {
+		case 1:
+			pcode = vRun(func() { SetNoNewPrivs() })
+		case 2:
+			pnnp, pflag := vBool("prior.nnp"), vU32("prior.flag")
+			pp := p.real()
+			pcode = vRun(func() { LoadFilter(Filter{NoNewPrivs: pnnp, Flag: FilterFlag(pflag), Policy: *pp}) })
+		default:
+			pcode = vRun(func() { Supported() })
+		}
+		vAssert(pcode == 0, "C09.nopanic")
+		if pcode != 0 {
+			return
+		}
+		vAssert(vLockDepthN == 0, "C11.unlocked_after_return")
+		vSysTrace = nil
+		vLockDepthN = 0
+		vNNPEarlier = true
+		vCover("cover.history")
+	}
 
 	// the expected program: compiled by the same real compiler on a copy
 	var want []bpf.RawInstruction
@@ -291,7 +327,8 @@ func H_Load() {
 	vReach(s.errno == kEINVAL, "cover.einval")
 	vReach(attached, "cover.attached")
 	// C11: unprivileged and not requested -> error
-	vAssert(vImplies(vAnd(vNot(vPrivSym), vNot(nnp)), err != nil), "C11.unpriv_needs_nnp")
+	// (with a history the installing thread may have the bit from an earlier call: what counts is the thread's bit at the call)
+	vAssert(vImplies(vAnd(vNot(vPrivSym), vAnd(vNot(nnp), vNot(s.nnpAtCall))), err != nil), "C11.unpriv_needs_nnp")
 
 	// C10: flag word unmodified, in the flags slot
 	vAssert(s.a[1] == uintptr(flag), "C10.flags")
